@@ -1,13 +1,13 @@
 package core
 
 import (
-	"sync"
 	"fmt"
 	"go/constant"
 	"go/token"
 	"go/types"
 	"sort"
 	"strings"
+	"sync"
 
 	"golang.org/x/tools/go/ssa"
 )
@@ -253,7 +253,7 @@ func corrJoins(fn *ssa.Function) map[*ssa.BasicBlock][]int {
 			tests[v].edgeIsNil = append(tests[v].edgeIsNil, [2]*ssa.BasicBlock{b, nl})
 		}
 	}
-	var joinOf *ssa.BasicBlock // the block whose incoming edge from `at` is being decided
+	var joinOf *ssa.BasicBlock                           // the block whose incoming edge from `at` is being decided
 	known := func(v ssa.Value, at *ssa.BasicBlock) int { // 1 non-nil, 0 nil, -1 unknown
 		if IsNilConst(v) {
 			return 0
